@@ -137,6 +137,12 @@ def showWr : Wr → String
   | .base w => showBaseWr w
   | .buf w b => s!"buf({b.data.length},{b.begin})/{showBaseWr w}"
 
+def parseAtDst (k : String) (h : String) : Option AtDst :=
+  match k, parseHex h with
+  | "v", some d => some (.vec d)
+  | "a", some d => some (.arr d)
+  | _, _ => none
+
 def rdBudget : Rd → Nat
   | .script s sc => s.length + sc.length
   | .mem d => d.length
@@ -300,6 +306,60 @@ def step (_ : Unit) (line : String) : Unit × String :=
       | some r, some w, some size =>
         let (res, r', w') := copy (fuelFor (some r) (some w) size) r w size
         fin res (s!"{showRes showN res} | {showRd r'} | {showWr w'}")
+      | _, _, _ => "bad-op"
+    | ["rat", src, pos, d] =>
+      match parseHex src, pos.toNat?, parseDst d with
+      | some src, some pos, some d =>
+        let bs := readAt src pos d.cap
+        s!"ok:{bs.length} {showDst (d.place 0 bs)}"
+      | _, _, _ => "bad-op"
+    | ["rvat", src, pos, m] =>
+      match parseHex src, pos.toNat?, parseMembers m with
+      | some src, some pos, some m =>
+        let (res, vs) := readVectoredAt src pos (VS.plain m)
+        fin res (s!"{showRes showN res} {showMembers vs.bufs}")
+      | _, _, _ => "bad-op"
+    | ["rxat", src, pos, d] =>
+      match parseHex src, pos.toNat?, parseDst d with
+      | some src, some pos, some d =>
+        let (res, d') := readExactAt src d pos
+        fin res (s!"{showRes showUnit res} {showDst d'}")
+      | _, _, _ => "bad-op"
+    | ["reat", src, pos, d] =>
+      match parseHex src, pos.toNat?, parseDst d with
+      | some src, some pos, some d =>
+        let (res, d') := readToEndAt src d pos
+        fin res (s!"{showRes showN res} {showDst d'}")
+      | _, _, _ => "bad-op"
+    | ["rvxat", src, pos, m] =>
+      match parseHex src, pos.toNat?, parseMembers m with
+      | some src, some pos, some m =>
+        let (res, m') := readVectoredExactAt src m pos
+        fin res (s!"{showRes showUnit res} {showMembers m'}")
+      | _, _, _ => "bad-op"
+    | ["wat", k, dst, pos, data] =>
+      match parseAtDst k dst, pos.toNat?, parseHex data with
+      | some d, some pos, some data =>
+        let (res, d') := d.writeAt pos data
+        fin res (s!"{showRes showN res} {hexOf d'.bytes}")
+      | _, _, _ => "bad-op"
+    | ["wvat", k, dst, pos, m] =>
+      match parseAtDst k dst, pos.toNat?, parseViews m with
+      | some d, some pos, some m =>
+        let (res, d') := d.writeVectoredAt pos (vslice m 0)
+        fin res (s!"{showRes showN res} {hexOf d'.bytes}")
+      | _, _, _ => "bad-op"
+    | ["waat", k, dst, pos, data] =>
+      match parseAtDst k dst, pos.toNat?, parseHex data with
+      | some d, some pos, some data =>
+        let (res, d') := writeAllAt d pos data
+        fin res (s!"{showRes showUnit res} {hexOf d'.bytes}")
+      | _, _, _ => "bad-op"
+    | ["wvaat", k, dst, pos, m] =>
+      match parseAtDst k dst, pos.toNat?, parseViews m with
+      | some d, some pos, some m =>
+        let (res, d') := writeVectoredAllAt d pos m
+        fin res (s!"{showRes showUnit res} {hexOf d'.bytes}")
       | _, _, _ => "bad-op"
     | _ => "bad-op"
   ((), out)
